@@ -575,6 +575,8 @@ MG_NATIVES += [
            'QR: l = 2..16 (thorough up to 160, 768, 1024) and 17 explicit safe primes: p odd prime of the requested size, safe and Blum for l > 2, order (p-1)/2, generator of exactly that order'),
     Native('qr_generator_nonsafe_p', 'mpyc.fingroups.QuadraticResidues', call_mg_generator, ck_mg_generator(True), in_mg_generator('QR', 'nonsafe'),
            'QR: 24 explicit odd primes p with (p-1)/2 composite (or 1): order (p-1)/2, generator of exactly that order'),
+    Native('qr_generator_weak_nonsafe_p', 'mpyc.fingroups.QuadraticResidues', call_mg_generator, ck_mg_generator(False), in_mg_generator('QR', 'nonsafe'),
+           'QR: the same 24 primes: p as requested, order (p-1)/2, generator in the group, generator^order = identity'),
     Native('sg_generator', 'mpyc.fingroups.SchnorrGroup', call_mg_generator, ck_mg_generator(True), in_mg_generator('SG', None),
            'SG: 21 parameter sets (thorough 27): p, q odd primes of the requested sizes/values, q | p-1, generator of order exactly q'),
 ]
@@ -1010,6 +1012,8 @@ def ck_ec_ctor(args, r, exc):
 def _ec_ks(name, tier, nrand):
     n = EC_ORDER[name]
     rnd = random.Random(SEED)
+    if tier == 'quick':          # the module's affine arithmetic costs one pure-Python field inversion per operation: few large k
+        return list(range(-8, 51)) + [n - 1, n, n + 1, -n, 2 * n + 3, n // 2, 2 ** 64, 2 ** 255] + [rnd.getrandbits(b) for b in (16, 64, 252, 448)] + [-rnd.getrandbits(200)]
     ks = list(range(-8, 51)) + [n - 2, n - 1, n, n + 1, n + 2, -n, -n + 1, 2 * n + 3, n // 2, (n + 1) // 2, 2 ** 64, 2 ** 128 - 1, 2 ** 255, 2 ** 300 + 1]
     for bits in (8, 16, 32, 64, 128, 200, 252, 256, 300, 448, 500):
         ks += [rnd.getrandbits(bits) for _ in range(nrand)]
@@ -1024,12 +1028,12 @@ def in_ec_scalar(name, coords):
 def in_ec_laws(name, coords):
     def gen(tier):
         n = EC_ORDER[name]
-        S = [0, 1, 2, 3, -1, -2, 5] if name != 'BN256_twist' else [0, 1, 2, -1, -3]
+        S = ([0, 1, 2, -1, 3] if tier == 'quick' else [0, 1, 2, 3, -1, -2, 5]) if name != 'BN256_twist' else ([0, 1, 2, -1] if tier == 'quick' else [0, 1, 2, -1, -3])
         for i in S:
             for j in S:
                 for k in S: yield (name, coords, i, j, k)
         rnd = random.Random(SEED + 3)
-        for _ in range(T(tier, 40, 600) if name != 'BN256_twist' else T(tier, 12, 200)):
+        for _ in range(T(tier, 8, 600) if name != 'BN256_twist' else T(tier, 5, 200)):
             i, j, k = (rnd.choice([rnd.getrandbits(256), rnd.getrandbits(64), rnd.randrange(-10, 10), n - rnd.randrange(5)]) for _ in range(3))
             yield (name, coords, i, j, k)
             yield (name, coords, i, i, k)               # equal operands through operation (not operation2)
@@ -1043,11 +1047,12 @@ def in_ec_repeat(name, coords):
     def gen(tier):
         n = EC_ORDER[name]
         rnd = random.Random(SEED + 4)
-        bases = [1, 2, rnd.getrandbits(250)] if name != 'BN256_twist' else [1, rnd.getrandbits(250)]
+        bases = [1, rnd.getrandbits(250)]
+        if tier != 'quick': bases.append(2)
         if tier != 'quick': bases += [0, -3, n - 1, rnd.getrandbits(128)]
         for i in bases:
             big = BIG_N + [n - 1, n, n + 1, -n - 1] + [rnd.getrandbits(256) for _ in range(T(tier, 2, 10))]
-            if name == 'BN256_twist' and tier == 'quick': big = big[::3]
+            if tier == 'quick': big = [255, 256, 65537, 0xAAAAAAAA, 2 ** 64 + 1, -(2 ** 64 + 1), -1023, n - 1, n + 1, -n - 1, big[-1]]
             for m in SMALL_N + big: yield (name, coords, i, m)
     return gen
 
@@ -1085,12 +1090,13 @@ for _name, _cos in EC_COORDS.items():
                    'a^n for 3 (thorough 7) base points, n = -20..40 and large / patterned n: equals n-fold application with the real operation/inversion and the own affine law'),
             Native(f'ec_generator:{_s}', _f + ' generator/order', call_ec_generator, ck_ec_generator, (lambda n_, c_: lambda tier: iter([(n_, c_)]))(_name, _co),
                    'declared order = published prime order; generator on the curve, not the identity, order*G = identity (module and own arithmetic)'),
-            Native(f'ec_codec:{_s}', _f + ' encode/decode', call_ec_codec, ck_ec_codec, in_ec_codec(_name, _co),
-                   'decode(encode(m)) == m for m = 0..39 (399), boundary values of (m+1)*gap <= p, random m; encoded points on the curve'),
         ]
+        if _name != 'BN256_twist':
+            EC_NATIVES.append(Native(f'ec_codec:{_s}', _f + ' encode/decode', call_ec_codec, ck_ec_codec, in_ec_codec(_name, _co),
+                                     'decode(encode(m)) == m for m = 0..39 (399), boundary values of (m+1)*gap <= p, random m; encoded points on the curve'))
         if _co != 'affine':
-            EC_NATIVES.append(Native(f'ec_agree:{_s}', _f + ' normalize', call_ec_agree, ck_ec_agree, in_ec_scalar(_name, _co),
-                                     'k G computed in this coordinate system, in affine and in projective coordinates agree after normalize(); same k as ec_scalar'))
+            EC_NATIVES.append(Native(f'ec_agree:{_s}', _f + ' normalize', call_ec_agree, ck_ec_agree, (lambda g_: lambda tier: itertools.islice(g_(tier), 0, None, T(tier, 2, 1)))(in_ec_scalar(_name, _co)),
+                                     'k G computed in this coordinate system, in affine and in projective coordinates agree after normalize(); same k as ec_scalar (quick: every second)'))
 
 
 def in_ec_hash(tier):
@@ -1464,12 +1470,12 @@ def ck_hc_ctor(args, r, exc):
     return (r['re'] == r['a'] and r['eq'] is True) or 'H(a.value) != a'
 
 
-HC_SPECS = [(('genus', 0), ('p', 3)), (('genus', 1), ('p', 3)), (('genus', 1), ('p', 5)), (('genus', 1), ('p', 7)), (('genus', 1), ('p', 11)), (('genus', 1), ('p', 13)),
+HC_SPECS = [(('genus', 0), ('p', 3)), (('genus', 1), ('p', 3)), (('genus', 1), ('p', 5)), (('genus', 1), ('p', 7)),
             (('genus', 1), ('p', 251)), (('genus', 1), ('l', 32)), (('genus', 1), ('l', 127)),
-            (('genus', 2), ('p', 3)), (('genus', 2), ('p', 5)), (('genus', 2), ('p', 7)), (('genus', 2), ('l', 8)), (('genus', 2), ('l', 64)),
+            (('genus', 2), ('p', 3)), (('genus', 2), ('p', 7)), (('genus', 2), ('l', 8)), (('genus', 2), ('l', 64)),
             (('coordinates', 'extended'), ('genus', 2), ('l', 64)), (('coordinates', 'extended'), ('genus', 2), ('l', 96)), (('curvename', 'kummer1271'),),
             (('genus', 3), ('p', 5)), (('genus', 3), ('p', 7)), (('l', 8),), (('l', 64),), (('genus', 4), ('l', 16))]
-HC_SPECS_TH = [(('l', 640),), (('genus', 2), ('l', 256)), (('coordinates', 'extended'), ('genus', 2), ('l', 256)), (('genus', 5), ('p', 11))]
+HC_SPECS_TH = [(('genus', 1), ('p', 11)), (('genus', 1), ('p', 13)), (('genus', 2), ('p', 5)), (('l', 640),), (('genus', 2), ('l', 256)), (('coordinates', 'extended'), ('genus', 2), ('l', 256)), (('genus', 5), ('p', 11))]
 HC_TINY = [(('genus', 1), ('p', 3)), (('genus', 1), ('p', 5)), (('genus', 1), ('p', 7)), (('genus', 2), ('p', 3)), (('genus', 2), ('p', 5))]
 HC_AGREE = [(('l', 64),), (('l', 96),), (('p', 1000003),)]
 HC_AGREE_SMALL = [(('p', 7),), (('p', 13),), (('p', 19),), (('l', 8),)]     # (p=11, genus=2) and (p=3, genus=3): the constructor does not terminate
@@ -1492,13 +1498,13 @@ def in_hc_laws(spec):
     def gen(tier):
         rnd = random.Random(SEED + 6)
         small = _hc_small(spec)
-        S = [0, 1, 2, 3, -1, 7] if not small else list(range(0, T(tier, 9, 14)))
+        S = [0, 1, 2, 3, -1, 7] if not small else list(range(0, T(tier, 7, 14)))
         els = [('g', i) for i in S]
         for a in els:
             for b in els:
                 for c in els[:4] if not small else els: yield (spec, a, b, c)
         big = lambda: ('g', rnd.choice([rnd.getrandbits(200), rnd.getrandbits(40), -rnd.getrandbits(70)]))
-        for _ in range(T(tier, 25, 300)):
+        for _ in range(T(tier, 20, 300)):
             a, b, c = big(), big(), big()
             yield (spec, a, b, c)
             yield (spec, a, ('gg', a[1] - 5, 5), c)           # equal elements reached differently
@@ -1509,9 +1515,9 @@ def in_hc_laws(spec):
 def in_hc_repeat(spec):
     def gen(tier):
         rnd = random.Random(SEED + 7)
-        els = [('g', 1), ('g', 2), ('g', rnd.getrandbits(100))]
+        els = [('g', 1), ('g', rnd.getrandbits(100))] + ([('g', 2)] if tier != 'quick' else [])
         for e in els:
-            for n in SMALL_N + BIG_N[::T(tier, 2, 1)]: yield (spec, e, n)
+            for n in SMALL_N + BIG_N[::T(tier, 3, 1)]: yield (spec, e, n)
     return gen
 
 
@@ -1556,7 +1562,7 @@ for _spec in HC_SPECS + HC_SPECS_TH:
                'a, b, c generator powers (small exponents: all triples; random exponents up to 200 bits; equal / inverse operands; encoded degree-1 divisors for affine coordinates): '
                'results in the Jacobian (own polynomial arithmetic), associativity, commutativity, identity, inverses, doubling 3 ways, equality/hash, operator aliases'),
         Native(f'hc_repeat:{_s}', _f + ' repeat', call_hc_repeat, ck_hc_repeat, in_hc_repeat(_spec),
-               'a^n for 3-4 elements, n = -20..40 and large / patterned n: equals n-fold application with the real operation / inversion'),
+               'a^n for 2 (thorough 3) elements, n = -20..40 and large / patterned n: equals n-fold application with the real operation / inversion'),
         Native(f'hc_generator:{_s}', _f + ' generator/order', call_hc_generator, ck_hc_generator, (lambda s_: lambda tier: iter([(s_,)]))(_spec),
                'parameters as requested, f monic of degree 2g+1, generator in the Jacobian, g^order = identity when an order is declared, exact order, order = exhaustive size of the Jacobian for p^g <= 400'),
     ]
@@ -1650,11 +1656,14 @@ def o_cl_forms(D):
     return out
 
 
+_COPRIME_PAIRS = ((1, 0), (0, 1)) + tuple((x, y) for s in range(2, 60) for x in range(1, s) for y in (s - x, x - s) if math.gcd(x, y) == 1)
+
+
 def o_cl_compose(D, f1, f2):
     """Dirichlet composition: move f2 by SL2(Z) to a form whose first coefficient is coprime to a1, solve for B by CRT"""
     a1, b1, _ = f1; a2, b2, c2 = f2
     val = lambda x, y: a2 * x * x + b2 * x * y + c2 * y * y
-    for p_, q_ in ((1, 0), (0, 1)) + tuple((x, y) for s in range(2, 60) for x in range(1, s) for y in (s - x, x - s) if math.gcd(x, y) == 1):
+    for p_, q_ in _COPRIME_PAIRS:
         if math.gcd(a1, val(p_, q_)) == 1: break
     else:
         raise AssertionError('oracle: no coprime value found')
@@ -1814,7 +1823,7 @@ def call_cl_codec(spec, m):
 def ck_cl_codec(args, r, exc):
     spec, m = args
     G = _cl(spec); D, gap = G.discriminant, G.gap                 # parameters only
-    if (m + 1) * gap > math.isqrt(-D) / 2 or m < 0:
+    if (m + 1) * gap > math.isqrt(-D) / 2:
         return isinstance(exc, AssertionError) or 'message too large for the discriminant: the documented assertion must fire'
     if isinstance(exc, ValueError) and 'encoding failed' in str(exc):
         # documented failure: no i in range(0, gap, 4) for which both a_0 = i+3 and a_m = m gap + i + 3 are first coefficients of forms (found through D^((a+1)/4) mod a)
@@ -1854,7 +1863,9 @@ CL_EXH = [-23, -31, -47, -71, -79, -167, -191, -199, -239, -311, -359, -431, -47
 
 
 def _cl_specs(tier):
-    return [('D', d) for d in CL_D] + [('l', l) for l in CL_L + (CL_L_TH if tier != 'quick' else [])]
+    if tier == 'quick':
+        return [('D', d) for d in CL_D[::3] + [-23, -59, -227, -431]] + [('l', l) for l in (2, 3, 5, 8, 12, 16, 20, 32, 64, 128, 256)]
+    return [('D', d) for d in CL_D] + [('l', l) for l in CL_L + CL_L_TH]
 
 
 def _cl_small_forms(D, count):
@@ -1883,37 +1894,37 @@ def in_cl_exh(tier):
                 for b in F: yield (('D', D), a, b, rnd.choice(F))
 
 
-def in_cl_laws(tier):
+def in_cl_laws(kind):
+  def gen(tier):
     rnd = random.Random(SEED + 12)
-    for spec in _cl_specs(tier):
+    for spec in (sp for sp in _cl_specs(tier) if sp[0] == kind):
         D = _cl(spec).discriminant
         els = [('g', k) for k in (0, 1, 2, 3, -1, 7)] + _cl_small_forms(D, 6)
         for a in els:
             for b in els:
-                for c in (els[1], els[-1], els[4]): yield (spec, a, b, c)
+                for c in (els[1], els[-1], els[4])[:T(tier, 2, 3)]: yield (spec, a, b, c)
         F = _cl_small_forms(D, 40)
         big = lambda: rnd.choice([('g', rnd.getrandbits(rnd.choice((8, 40, 200)))), ('g', -rnd.getrandbits(30)), rnd.choice(F)])
-        for _ in range(T(tier, 30, 400)):
+        for _ in range(T(tier, 12, 400)):
             a, b, c = big(), big(), big()
             yield (spec, a, b, c); yield (spec, a, a, c)
             if a[0] == 'g': yield (spec, a, ('g', -a[1]), c)
+  return gen
 
 
-def in_cl_repeat(tier):
+def in_cl_repeat(kind):
+  def gen(tier):
     rnd = random.Random(SEED + 13)
-    for spec in _cl_specs(tier):
+    for spec in (sp for sp in _cl_specs(tier) if sp[0] == kind):
         D = _cl(spec).discriminant
-        els = [('g', 1), ('g', rnd.getrandbits(60))] + _cl_small_forms(D, 8)[-2:]
+        els = [('g', 1), ('g', rnd.getrandbits(60))] + _cl_small_forms(D, 8)[-T(tier, 1, 2):]
         for e in els:
-            for n in SMALL_N + BIG_N[::T(tier, 2, 1)]: yield (spec, e, n)
+            for n in SMALL_N + BIG_N[::T(tier, 3, 1)]: yield (spec, e, n)
+  return gen
 
 
-def in_cl_generator(which):
-    def gen(tier):
-        for spec in _cl_specs(tier):
-            D = _cl(spec).discriminant
-            if (which == 'cyclic') == (D % 8 == 1 or -D < 20): yield (spec,)
-    return gen
+def in_cl_generator(tier):
+    for spec in _cl_specs(tier): yield (spec,)
 
 
 def in_cl_codec(tier):
@@ -1921,7 +1932,7 @@ def in_cl_codec(tier):
     for spec in _cl_specs(tier):
         G = _cl(spec); D, gap = G.discriminant, G.gap
         top = int(math.isqrt(-D) / 2) // gap - 1
-        ms = {-1, top + 1, top + 2} | ({m for m in list(range(0, T(tier, 40, 400))) + [top, top - 1, top // 2] if 0 <= m <= top}) | \
+        ms = {top + 1, top + 2} | ({m for m in list(range(0, T(tier, 40, 400))) + [top, top - 1, top // 2] if 0 <= m <= top}) | \
             ({rnd.randrange(top + 1) for _ in range(T(tier, 20, 200))} if top >= 0 else set())
         for m in sorted(ms): yield (spec, m)
 
@@ -1943,19 +1954,37 @@ CL_NATIVES = [
     Native('cl_exhaustive', 'mpyc.fingroups.ClassGroupForm.operation/operation2/inversion', call_cl_laws, ck_cl_laws, in_cl_exh,
            '17 discriminants with class numbers 3..47: the whole class group enumerated by own search; all pairs with a random third form (all triples for small groups): '
            'composition (NUCOMP), doubling (NUDUPL), inverse, identity against own Dirichlet composition + reduction; results reduced'),
-    Native('cl_laws', 'mpyc.fingroups.ClassGroupForm', call_cl_laws, ck_cl_laws, in_cl_laws,
-           '30 explicit discriminants and 19 bit lengths up to 256 (thorough 33, up to 2048): generator powers and forms with small first coefficient, small sets exhaustively, '
-           'random ones (exponents up to 200 bits), equal / inverse operands: all group axioms, equality, hash, operator aliases against own composition'),
-    Native('cl_repeat', 'mpyc.fingroups.ClassGroupForm repeat', call_cl_repeat, ck_cl_repeat, in_cl_repeat,
-           'every parameter set x 4 forms x n = -20..40 and large / patterned n: equals n-fold application (real operation / inversion) and the own n-fold composition'),
-    Native('cl_generator', 'mpyc.fingroups.ClassGroup', call_cl_generator, ck_cl_generator(True), in_cl_generator('cyclic'),
-           'discriminants = 1 mod 8 (and |D| < 20): discriminant as requested (negative prime, 1 mod 4, bit length), identity principal, declared order = class number by exhaustive count '
-           '(|D| < 2^22), generator^order = identity, generator of exactly the declared order'),
-    Native('cl_generator_trivial', 'mpyc.fingroups.ClassGroup', call_cl_generator, ck_cl_generator(True), in_cl_generator('other'),
-           'discriminants = 5 mod 8 (documented "trivial generator"): same obligations incl. generator of exactly the declared order'),
+] + [
+    Native(f'cl_laws:{_k}', 'mpyc.fingroups.ClassGroupForm', call_cl_laws, ck_cl_laws, in_cl_laws(_k[0]),
+           ('14 (thorough 30) explicit discriminants' if _k == 'D' else '11 bit lengths 2..256 (thorough 33, up to 2048)') + ': generator powers and forms with small first coefficient, small sets '
+           'exhaustively, random ones (exponents up to 200 bits), equal / inverse operands: all group axioms, equality, hash, operator aliases against own composition')
+    for _k in ('D', 'l')] + [
+    Native(f'cl_repeat:{_k}', 'mpyc.fingroups.ClassGroupForm repeat', call_cl_repeat, ck_cl_repeat, in_cl_repeat(_k[0]),
+           ('14 (thorough 30) explicit discriminants' if _k == 'D' else '11 bit lengths 2..256 (thorough 33, up to 2048)') + ' x 3 (4) forms x n = -20..40 and large / patterned n: equals n-fold '
+           'application (real operation / inversion) and the own n-fold composition')
+    for _k in ('D', 'l')] + [
+    Native('cl_generator', 'mpyc.fingroups.ClassGroup', call_cl_generator, ck_cl_generator(False), in_cl_generator,
+           'every parameter set: discriminant as requested (negative prime, 1 mod 4, bit length), identity principal, generator a reduced form, declared order = class number by exhaustive '
+           'count (|D| < 2^22), generator^order = identity (module and own composition)'),
+    Native('cl_generator_exact', 'mpyc.fingroups.ClassGroup', call_cl_generator, ck_cl_generator(True), in_cl_generator,
+           'every parameter set with a declared order: the generator has exactly the declared order (g^(order/r) != identity for every prime r | order)'),
     Native('cl_codec', 'mpyc.fingroups.ClassGroupForm.encode/decode', call_cl_codec, ck_cl_codec, in_cl_codec,
-           'every parameter set: m = -1, 0..39 (399), boundary of (m+1) gap <= sqrt(|D|)/2 (AssertionError beyond, as documented), random m: decode(encode(m)) == m, encoded forms reduced, '
+           'every parameter set: m = 0..39 (399), boundary of (m+1) gap <= sqrt(|D|)/2 (AssertionError beyond, as documented), random m: decode(encode(m)) == m, encoded forms reduced, '
            'ValueError only when no encoding exists'),
     Native('cl_ctor', 'mpyc.fingroups.ClassGroupForm.__init__', call_cl_ctor, ck_cl_ctor, in_cl_ctor,
            '9 discriminants: (a, b) and (a, b, c) with -2 <= a < 14, |b| <= 14 (thorough 40), transformed (non-reduced) forms: ValueError exactly for invalid forms, else the own reduced form'),
 ]
+
+EC_NATIVES.append(Native('ec_codec:BN256_twist', "mpyc.fingroups.EllipticCurve('BN256_twist') encode/decode", call_ec_codec, ck_ec_codec,
+                         lambda tier: (a for co in EC_COORDS['BN256_twist'] for a in in_ec_codec('BN256_twist', co)(tier)),
+                         'curve over GF(p^2), all three coordinate systems: decode(encode(m)) == m for m = 0..39 (399), large and random m'))
+
+
+# ================================================================= registry
+NATIVE = {n.name: n for n in SYM_NATIVES + MG_NATIVES + EC_NATIVES + HC_NATIVES + CL_NATIVES}
+assert len(NATIVE) == len(SYM_NATIVES + MG_NATIVES + EC_NATIVES + HC_NATIVES + CL_NATIVES)
+for _n in NATIVE.values(): _n.module = 'contracts.fingroups'
+
+
+def native_names(tier):
+    return [n.name for n in NATIVE.values() if tier != 'quick' or not getattr(n, 'thorough_only', False)]
